@@ -1,7 +1,7 @@
 """C09 -- same audio, same result: container and spelling independence (DESIGN 4.9, B.3)"""
 import ast
 
-from ..facts import Ctx, norm_cmp, exc_name
+from ..facts import Ctx, norm_cmp, exc_name, opaque_helper_calls
 from ..symex import show, walk, term_name, bind_call
 from .. import pat as P
 from .c05 import check_roles
@@ -32,6 +32,7 @@ def alias_reads(repo):
 
 def check(repo, rep):
     cx = Ctx(repo)
+    rep.cx = cx
     # ---------------------------------------------------------------- (a) alias idiom: long name wins, at every read of a short key
     reads = alias_reads(repo)
     nalias = 0
@@ -54,6 +55,32 @@ def check(repo, rep):
                     and isinstance(n.args[1].args[0], ast.Constant):
                 k2 = n.args[1].args[0].value
                 rep.ob('the fallback of long name %r is its own alias %r' % (k, PAIRS[k]), k2 == PAIRS[k], where, 'alias-pair[%s]' % k, 'fallback key is %r' % k2)
+    # helpers of the form h(d, long, short[, default]) = d.get(long, d.get(short[, default])) are the same idiom with the names as
+    # arguments: every call with a short alias must pair it with its own long name, in that order
+    for mod_, d_ in cx.model.mods.items():
+        if mod_ in ('plotting', 'dataset', '__init__'):
+            continue
+        for hname, hfn in d_['funcs'].items():
+            ps = [a.arg for a in hfn.args.args]
+            if len(ps) < 3:
+                continue
+            try:
+                hl = [l for l in cx.leaves(mod_, hname) if l.outcome == 'return']
+            except Exception:
+                continue
+            d0, a1, a2 = P.param(ps[0]), P.param(ps[1]), P.param(ps[2])
+            inner = P.method(d0, 'get', a2) | (P.method(d0, 'get', a2, P.param(ps[3])) if len(ps) > 3 else P.method(d0, 'get', a2))
+            if len(hl) != 1 or hl[0].conds or not P.method(d0, 'get', a1, inner)(hl[0].value):
+                continue
+            for m2, d2 in cx.model.mods.items():
+                for n in ast.walk(d2['tree']):
+                    if isinstance(n, ast.Call) and ((isinstance(n.func, ast.Name) and n.func.id == hname) or (isinstance(n.func, ast.Attribute) and n.func.attr == hname)) and len(n.args) >= 3 \
+                            and all(isinstance(a, ast.Constant) and isinstance(a.value, str) for a in n.args[1:3]):
+                        long_, short_ = n.args[1].value, n.args[2].value
+                        if long_ in PAIRS or short_ in SHORT or long_ in SHORT:
+                            nalias += 1
+                            rep.ob('alias %r is read only as the fallback of its long name %r on the same dict (long name wins)' % (short_, SHORT.get(short_, long_)), PAIRS.get(long_) == short_, cx.where(m2, n),
+                                   'alias-read[%s]' % short_, '%s(%s, %r, %r): %r is not the alias of %r' % (hname, ast.unparse(n.args[0])[:30], long_, short_, short_, long_), sample=dict(site=cx.where(m2, n), idiom=ast.unparse(n)[:90]))
     # the loop over (long, short) pairs in _get_audio_parameters is unrolled by the evaluator
     gl = cx.leaves('io', '_get_audio_parameters')
     rets = [l for l in gl if l.outcome == 'return']
@@ -64,6 +91,9 @@ def check(repo, rep):
             for t, long_ in zip(v[1], ('sampling_rate', 'sample_width', 'channels')):
                 good = P.first_of(P.param('param_dict'), long_, PAIRS[long_])(t)
                 nalias += 1
+                if not good and opaque_helper_calls(cx, t):
+                    rep.unknown('_get_audio_parameters: component %s is computed by a helper the evaluator could not inline' % show(t)[:80])
+                    continue
                 rep.ob('audio parameter %s = FirstOf(dict; %s, %s) in the order (rate, width, channels)' % (long_, long_, PAIRS[long_]), good, cx.where('io', l.node), '_get_audio_parameters[%s]' % long_,
                        'component is %s' % show(t)[:120], sample=dict(parameter=long_, term=show(t)[:100]))
         else:
@@ -233,6 +263,10 @@ def check(repo, rep):
         if '_Limiter' in u:
             rep.unknown(u)
     # ---------------------------------------------------------------- role agreement on the container paths
+    # an empty file / empty input is audio too: a loader that hands the (None at end of stream) result of read() to something that
+    # dereferences it crashes for that container only
+    from .c10 import check_nullness
+    check_nullness(cx, rep, lambda f: f['mod'] == 'io', rule='a container loader never dereferences a read() result that is None for empty audio')
     check_roles(cx, rep, lambda p: p['func'] in ('split', 'get_audio_source', 'from_file', '_load_raw', '_load_wave', '_load_with_pydub', '_get_audio_parameters', 'AudioRegion.load'), floor=30)
     rep.explanation = ('(a) census of every read of an alias key in the package: a short key (aw, mr, fmt, val, eth, uc, sr, sw, ch) is read only as the fallback of its own long name on the same dict '
                        '(long name wins); _get_audio_parameters (loop unrolled) yields FirstOf(dict; long, short) in the order rate, width, channels; (b) split() hands max_read / audio_format down '
